@@ -1,5 +1,6 @@
 import UpfVerif.Driver.Gtpu
 import UpfVerif.Driver.Flags
+import UpfVerif.Driver.FlowDesc
 import UpfVerif.Driver.Ctl
 import UpfVerif.Driver.CtlProps
 open UpfVerif UpfVerif.Driver
@@ -8,6 +9,7 @@ open UpfVerif UpfVerif.Driver
 def evalT (fn : String) (args : List String) (impl : String) : Option Verdict :=
   match fn with
   | "gtpu.encode" => evalGtpu args impl
+  | "fd.parse" => evalFlowDesc args impl
   | "mal.send" =>
     some { model := "alive",
            propFails := if impl == "alive" then [] else
